@@ -12,7 +12,7 @@ import (
 type ValDesc struct {
 	T     string    `json:"t"` // int float str bool null list map
 	I     int64     `json:"i,omitempty"`
-	F     float64   `json:"f"` // no omitempty: -0.0 must survive
+	F     float64   `json:"f"`           // no omitempty: -0.0 must survive
 	H     string    `json:"h,omitempty"` // hex of string bytes
 	B     bool      `json:"b,omitempty"`
 	Keys  []string  `json:"keys,omitempty"` // hex-encoded keys for map
